@@ -76,6 +76,11 @@ class DecodeState:
             odxraise("The bit length of FLOAT64 values must be 64 bits")
             bit_length = 64
 
+        if base_data_type in (DataType.A_INT32, DataType.A_UINT32) and bit_length > 64:
+            # (this is the limit of the bitstruct module)
+            raise DecodeError(f"Integer objects cannot be longer than 64 bits "
+                              f"(specified bit length: {bit_length})")
+
         byte_length = (bit_length + self.cursor_bit_position + 7) // 8
         if self.cursor_byte_position + byte_length > len(self.coded_message):
             raise DecodeError(f"Expected a longer message.")
